@@ -146,13 +146,14 @@ prop("C02",
                 "(functions_under_contract); the others are NOT decided.",
      level_note="Trusted: pyvc, z3; the transcription of the standard's per-state rules into contracts/tokenizer_states.py; "
                 "the stream contract (C05). 65 of the 66 state methods are under contract (plus characterReferenceInRcdata and "
-                "emitCurrentToken); not under contract: cdataSectionState (two nested loops; reachable only with a parser in "
-                "foreign content) and __iter__ (queue draining). markupDeclarationOpenState is proved for a stand-alone "
+                "emitCurrentToken), and __iter__ yields the stream's errors and then the queued tokens of each state call in "
+                "order (loop contract, bounded in the tokens per call); not under contract: cdataSectionState (two nested loops; "
+                "reachable only with a parser in foreign content). markupDeclarationOpenState is proved for a stand-alone "
                 "tokenizer (no CDATA branch). Where the standard says 'append X and reconsume in state S' and html5lib does both "
                 "in one step, the contract states the composite (comment, DOCTYPE states); the DOCTYPE name is compared after "
                 "ASCII lower-casing while it is being read. Lower-casing at emission and duplicate attributes are "
                 "emitCurrentToken's contract; character references are consumeEntity's (C14).",
-     not_decided=["cdataSectionState", "HTMLTokenizer.__iter__", "composition of the per-state steps into whole-input equivalence (induction over steps, not mechanised)"],
+     not_decided=["cdataSectionState", "composition of the per-state steps into whole-input equivalence (induction over steps, not mechanised)"],
      explanation="state-by-state contracts against the standard, modular over the stream contract")
 
 
